@@ -73,6 +73,7 @@ void vf_sb_init(VSessB *s, VPers *p)
   *reinterpret_cast<void ***>(s) = &_ZTV6VSessB[2];
   *reinterpret_cast<void ***>(p) = &_ZTV5VPers[2];
   new (&s->_batchmsgs_buffer) std::string;
+  s->_batchmsgs_buffer.reserve(10 * (FIX8_MAX_MSG_LENGTH + HEADER_CALC_OFFSET));   // as the Session constructor does: heap buffer, never the in-object SSO bytes
   new (&s->_per_spl) f8_spin_lock;
   // remaining members: setters of shims/sess_common.cpp (vf_sess_set_ptrs / _set_sid / _set_seq / _set_flags / _set_state)
 }
